@@ -4,7 +4,7 @@
    multiset comparison of the oracle. *)
 From Coq Require Import String Ascii.
 From Coq Require Import List Arith Lia Bool Permutation.
-Require Import TT.Model.Str TT.Model.Pipeline TT.Model.C03Discover TT.Spec.C03Spec.
+Require Import TT.Model.Str TT.Model.Pipeline TT.Model.C03RetType TT.Model.C03Discover TT.Spec.C03Spec.
 Require Import TT.Proofs.StrFacts.
 Import ListNotations.
 Local Open Scope list_scope.
@@ -109,14 +109,22 @@ Proof. induction files as [|[p c] r IH]; [reflexivity|].
 
 (* ------------------------------------------------------------------ bijection *)
 Definition file_obs (pi : list str * list ritem) : list (str * str) :=
-  map (fun f => (fn_name f, promise_of f)) (file_cmds (snd pi)).
+  map (fun f => (unraw (fn_name f), promise_of f)) (file_cmds (snd pi)).
 
 Lemma emit_flat cached : map wobs (emit (analyze_files cached)) = flat_map file_obs cached.
 Proof. unfold emit, analyze_files. induction cached as [|pi r IH]; [reflexivity|].
   cbn [flat_map]. rewrite !map_app, IH. f_equal. unfold file_obs. rewrite !map_map. reflexivity. Qed.
 
+(* IdentExt::unraw of the model is the Rust name of the specification *)
+Lemma unraw_rust_name s : unraw s = rust_name s.
+Proof. unfold unraw, rust_name. change (L "r#") with ["r"%char; "#"%char].
+  destruct s as [|a [|b r]]; cbn [starts skipn]; [reflexivity| |].
+  - rewrite andb_false_r. reflexivity.
+  - rewrite andb_true_r, (Ascii.eqb_sym "r"%char a), (Ascii.eqb_sym "#"%char b). reflexivity. Qed.
+
 Lemma emit_pairs cs : map wobs (emit cs) = map spec_obs (map cmd_pair cs).
-Proof. unfold emit. rewrite !map_map. reflexivity. Qed.
+Proof. unfold emit. rewrite !map_map. apply map_ext. intros c. unfold wobs, spec_obs, cmd_pair. cbn [w_invoke w_ret fst snd].
+  rewrite unraw_rust_name. reflexivity. Qed.
 
 (* holds for every tree and every root; the layout_ok premise of the published theorem only
    delimits the trees that stand for a real directory *)
